@@ -143,3 +143,32 @@ pub fn e6_bad_stale_position<D: DiffHook>(d: &mut D, old_range: Range<usize>, ne
     }
     d.finish()
 }
+
+/// control E7: the delete starts at the position the equal segment just consumed
+pub fn e7_bad_position_reused<D: DiffHook>(d: &mut D, old_range: Range<usize>, new_range: Range<usize>, n: usize) -> Result<(), D::Error> {
+    if n > 0 {
+        d.equal(old_range.start, new_range.start, n)?;
+    }
+    if old_range.len() > n {
+        d.delete(old_range.start, old_range.len() - n, new_range.start + n)?;
+    }
+    d.finish()
+}
+
+/// control E8: the insert carries the old position the delete just consumed
+pub fn e8_bad_carried_position<D: DiffHook>(d: &mut D, old_range: Range<usize>, new_range: Range<usize>) -> Result<(), D::Error> {
+    if !old_range.is_empty() && !new_range.is_empty() {
+        d.delete(old_range.start, old_range.end - old_range.start, new_range.start)?;
+        d.insert(old_range.start, new_range.start, new_range.end - new_range.start)?;
+    }
+    d.finish()
+}
+
+/// silent twin of E8: the insert carries the end of the deleted block
+pub fn e8_good_carried_position<D: DiffHook>(d: &mut D, old_range: Range<usize>, new_range: Range<usize>) -> Result<(), D::Error> {
+    if !old_range.is_empty() && !new_range.is_empty() {
+        d.delete(old_range.start, old_range.end - old_range.start, new_range.start)?;
+        d.insert(old_range.end, new_range.start, new_range.end - new_range.start)?;
+    }
+    d.finish()
+}
